@@ -45,6 +45,7 @@ import (
 	"context"
 	"fmt"
 	"io"
+	"math"
 	"mime/multipart"
 	"net"
 	"net/url"
@@ -828,9 +829,18 @@ func (ctx *RequestContext) Copy() *RequestContext {
 // Next should be used only inside middleware.
 // It executes the pending handlers in the chain inside the calling handler.
 func (ctx *RequestContext) Next(c context.Context) {
-	ctx.index++
+	ctx.advance()
 	for ctx.index < int8(len(ctx.handlers)) {
 		ctx.handlers[ctx.index](c, ctx)
+		ctx.advance()
+	}
+}
+
+// advance moves the handler index forward and stops at the largest int8: every
+// returning Next of a long chain adds one more step, which must not wrap the index
+// around to a negative value.
+func (ctx *RequestContext) advance() {
+	if ctx.index < math.MaxInt8 {
 		ctx.index++
 	}
 }
